@@ -1,4 +1,4 @@
-CONSTANTS Rate = 17  OpenParse = TRUE
+CONSTANTS Rate = 5  OpenParse = TRUE
 INIT MCInit
 NEXT MCNext
 INVARIANTS Laws Emit
